@@ -348,14 +348,33 @@ class RealHistory:
                 o = ('load_did_not_raise',)
             except Exception:
                 o = None
+        elif k == 'mkvars':
+            # the host program creates its query variables early and uses them much later
+            for name in st[1]:
+                build_real(yp, ('v', name), self.vmap)
+            o = len(st[1])
         elif k == 'atoms':
             # atom creation: interned per engine
             o = [yp.atom(n) is yp.atom(n) and yp.atom(n).name() == n for n in st[1]]
         elif k == 'assert_fact':
             t = st[1]
-            args = self.terms(t[2] if t[0] == 'c' else ())
-            o = self.guarded(lambda: yp.assert_fact(yp.atom(t[1]), args, st[2]))
+            # a host program that asserts the same term again passes the same OBJECT again (a template whose
+            # variables it binds per record): compound arguments are built once per history and reused
+            cache = self.__dict__.setdefault('fact_terms', {})
+            args = []
+            for a in (t[2] if t[0] == 'c' else ()):
+                if a[0] == 'c':
+                    if a not in cache:
+                        cache[a] = build_real(self.yp, a, self.vmap, self.atomf)
+                    else:
+                        self.reused_objects = getattr(self, 'reused_objects', 0) + 1
+                    args.append(cache[a])
+                else:
+                    args.append(build_real(self.yp, a, self.vmap, self.atomf))
+            pname = self.atomf(t[1])
+            o = self.guarded(lambda: yp.assert_fact(pname, args, st[2]))
         elif k == 'clear':
+            self.__dict__.setdefault('fact_terms', {}).clear()
             o = self.guarded(lambda: yp.clear())
         elif k == 'bind':
             a, b = self.terms([st[2], st[3]])
@@ -465,6 +484,8 @@ def run_real(real, history, budget=3000000, unstable=None, atom_mode='fresh'):
         h.finish()
         for kd, nk in getattr(h, 'callable_kinds', {}).items():
             STATS['registered_' + kd] = STATS.get('registered_' + kd, 0) + nk
+        if getattr(h, 'reused_objects', 0):
+            STATS['asserted_term_objects_reused'] = STATS.get('asserted_term_objects_reused', 0) + h.reused_objects
         if getattr(h, 'loads_from_file', 0):
             STATS['loads_through_file_api'] = STATS.get('loads_through_file_api', 0) + h.loads_from_file
     if unstable is not None:
